@@ -184,10 +184,13 @@ function adhoc_parse_select_expression_to_column_infos(select_expression, string
 
 
 function stable_compare(a, b) {
-    for (var i = 0; i < a.length; i++) {
+    // The last element of a sort entry is the output record itself, it is not a part of the sort key.
+    // Records produced from the same input record (UNNEST, JOIN with several matches) share their NR and must keep their original order
+    for (var i = 0; i < a.length - 1; i++) {
         if (a[i] !== b[i])
             return a[i] < b[i] ? -1 : 1;
     }
+    return 0; // Array.prototype.sort() is stable
 }
 
 
